@@ -1,5 +1,6 @@
 import WindVerif.Model.Generic
 import WindVerif.Model.GenericK
+import WindVerif.Model.GenericEq
 import WindVerif.Drv.Common
 import WindVerif.Drv.Sorted
 namespace WindVerif.Drv
@@ -50,6 +51,18 @@ def genericStep (_ : Unit) (ws : List String) : Unit × String :=
         | .ok l => "list " ++ joinWith "," (l.map (fun p => s!"{p.1}:{p.2}"))
         | .error e => s!"err {genErr e}")
       | _, _ => "bad-op")
+    -- `subseqE n | s1… | s2…` / `searchE n | s1… | s2…`: elements are object numbers; the objects `< n` are equal to nothing
+    -- (themselves included: NaNs, found only through identity), the others are equal iff they are the same number
+    | "subseqE" :: n :: "|" :: rest => (let (a, b) := splitBar rest
+      match n.toNat?, parseNats a, parseNats b with
+      | some n, some a, some b => if subSeqE (nanEq n) a b then "ret 1" else "ret 0"
+      | _, _, _ => "bad-op")
+    | "searchE" :: n :: "|" :: rest => (let (a, b) := splitBar rest
+      match n.toNat?, parseNats a, parseNats b with
+      | some n, some a, some b => (match searchSubSeqE (nanEq n) a b with
+        | .ok l => "list " ++ joinWith "," (l.map (fun p => s!"{p.1}:{p.2}"))
+        | .error e => s!"err {genErr e}")
+      | _, _, _ => "bad-op")
     | "cmp" :: rest => (let (a, b) := splitBar rest
       match parseInts a, parseInts b with
       | some a, some b => if comparePos a b then "ret 1" else "ret 0"
